@@ -55,6 +55,21 @@ Proof. exact quick_inert_glob. Qed.
 Theorem C05_quick_inert_alternate : forall t pkg, quick (print t) pkg = false -> spec_match t pkg = false.
 Proof. exact quick_inert_alt. Qed.
 
+(* outside the property's subset but part of what Pattern::new reports: after a
+   literal prefix, three or more '*' never compile, and '**' compiles only as a
+   whole path component *)
+Theorem C05_triple_star_rejected : forall a b, Forall litc a -> glob_new (a ++ 42 :: 42 :: 42 :: b) = Fail EWildcards.
+Proof. exact triple_star_rejected. Qed.
+Theorem C05_double_star_misplaced : forall a b, Forall litc a ->
+  match b with c :: _ => c <> 42 | [] => True end ->
+  (a <> [] /\ last a 0 <> 47) \/ (exists c r, b = c :: r /\ c <> 47) ->
+  glob_new (a ++ 42 :: 42 :: b) = Fail ERecursive.
+Proof. exact double_star_misplaced. Qed.
+Example C05_example_stars :
+  glob_new (lit "ab***c") = Fail EWildcards /\ glob_new (lit "ab**") = Fail ERecursive /\
+  glob_new (lit "a/**b") = Fail ERecursive /\ is_val (glob_new (lit "a/**/b")) = true /\ is_val (glob_new (lit "**")) = true.
+Proof. vm_compute. repeat split. Qed.
+
 Example C05_example_glob :
   pm (lit "mutt-[0-9]*") (lit "mutt-2.2.13") = MBool true /\
   pm (lit "mutt-[0-9]*") (lit "mutt-vid-1.1") = MBool false /\
